@@ -1,7 +1,7 @@
 //! Solve an initial value problem for a system of ODEs.
 
 use crate::{
-    error::Error,
+    error::{ConfigError, Error},
     methods::{BDF, DOP853, DOPRI5, RADAU, RK23, RK4},
     ivp::IVP,
     Float,
@@ -106,6 +106,17 @@ pub fn solve_ivp<F>(
 where
     F: IVP,
 {
+    // The length of the interval has to be a finite number: with finite end points whose difference overflows
+    // (x0 = -1e308, xend = 1e308) the step size is infinite and is never reduced by a rejection, so the run would not end
+    if !(xend - x0).is_finite() {
+        return Err(Error::Config(ConfigError::OutOfRange {
+            parameter: "xend - x0",
+            value: xend - x0,
+            min: -Float::MAX,
+            max: Float::MAX,
+        }));
+    }
+
     // Handle zero-interval case: when x0 == xend, return immediately with initial state
     if xend == x0 {
         // If t_eval is provided, return all t_eval points that match x0
